@@ -20,8 +20,8 @@ warnings.simplefilter("ignore")
 
 ID = "C17"
 BACKENDS = ("py", "rs")
-GEN_MODULES = ("Tables", "Helpers", "Parser", "IsoPy:datetime", "IsoPy:duration")
-MIN_THEOREMS = 36
+GEN_MODULES = ("Tables", "Helpers", "RsHelpers", "Parser", "IsoPy:datetime", "IsoPy:duration", "IsoRs:datetime", "IsoRs:duration", "IsoRs:glue")
+MIN_THEOREMS = 37
 RULE = ("ops: ('ptotal', options, string). options = <exact><strict><day_first><year_first>[n]:<tz>; the fifth flag n = the call "
         "is made WITHOUT now= (a bare time is completed from datetime.now(); the reply is compared after today's date has been "
         "replaced by the fixed now of the model, see impl); tz = none (no tz= argument) | naive (tz=None) | seconds (a FixedTimezone) "
